@@ -179,8 +179,11 @@ def arm(plan):
         # fails under the limit is run again, one that reports success is judged by the ordinary oracle.
         import resource
         soft, hard = resource.getrlimit(resource.RLIMIT_FSIZE)
-        _soft = (soft, hard)
-        resource.setrlimit(resource.RLIMIT_FSIZE, (plan["limit"], hard))
+        try:
+            resource.setrlimit(resource.RLIMIT_FSIZE, (plan["limit"], hard))
+            _soft = (soft, hard)
+        except (ValueError, OSError):
+            _count("fault:file-size-limit-not-available")       # the operation simply runs without a fault
 
 
 def disarm():
